@@ -7,56 +7,75 @@ successful inserts / removals appended, in order; the initial file `b0` is arbit
 foreign records, torn tails).  No bound on the number, order or size of records.
 -/
 import Cacache.Lemmas.Index
+import Cacache.Lemmas.CodecLaws
 
 namespace Cacache.C05
 
-variable {R M : Type}
+variable {R M : Type} {W : R → Prop}
 
 /-- **Last wins.**  After any initial file `b0` and any history `pre ++ [r] ++ post` in which no
 later record concerns `r`'s key, looking that key up is decided by `r`: the entry it carries, or
 `none` for a removal (`Cls.apply`; a record with an unparsable integrity — which no insert
 produces — leaves the earlier answer). -/
-theorem lookup_last_wins (c : Codec R M) (L : c.Laws) (b0 : Bytes) (pre post : List R) (r : R)
-    (hpost : ∀ s ∈ post, c.key s ≠ c.key r) :
+theorem lookup_last_wins (c : Codec R M) (L : c.Laws W) (b0 : Bytes) (pre post : List R) (r : R)
+    (hW : ∀ x ∈ pre ++ r :: post, W x) (hpost : ∀ s ∈ post, c.key s ≠ c.key r) :
     c.find (c.appendAll b0 (pre ++ r :: post)) (c.key r) =
       (c.cls r).apply (c.findIn (c.key r) (c.entriesT b0 ++ pre)) := by
   unfold Codec.find
-  rw [L.entries_appendAll_ne_nil b0 _ (by simp), ← List.append_assoc]
+  rw [L.entries_appendAll_ne_nil b0 _ hW (by simp), ← List.append_assoc]
   exact c.findIn_last _ post r hpost
 
 /-- A live record that is last for its key is what the lookup returns. -/
-theorem lookup_returns_last_write (c : Codec R M) (L : c.Laws) (b0 : Bytes) (pre post : List R)
-    (r : R) (m : M) (hr : c.cls r = .live m) (hpost : ∀ s ∈ post, c.key s ≠ c.key r) :
+theorem lookup_returns_last_write (c : Codec R M) (L : c.Laws W) (b0 : Bytes) (pre post : List R)
+    (r : R) (m : M) (hW : ∀ x ∈ pre ++ r :: post, W x) (hr : c.cls r = .live m)
+    (hpost : ∀ s ∈ post, c.key s ≠ c.key r) :
     c.find (c.appendAll b0 (pre ++ r :: post)) (c.key r) = some m := by
-  rw [lookup_last_wins c L b0 pre post r hpost, hr]; rfl
+  rw [lookup_last_wins c L b0 pre post r hW hpost, hr]; rfl
 
 /-- A removal that is last for its key makes the key absent: earlier entries never resurface. -/
-theorem lookup_absent_after_removal (c : Codec R M) (L : c.Laws) (b0 : Bytes) (pre post : List R)
-    (r : R) (hr : c.cls r = .tomb) (hpost : ∀ s ∈ post, c.key s ≠ c.key r) :
+theorem lookup_absent_after_removal (c : Codec R M) (L : c.Laws W) (b0 : Bytes) (pre post : List R)
+    (r : R) (hW : ∀ x ∈ pre ++ r :: post, W x) (hr : c.cls r = .tomb)
+    (hpost : ∀ s ∈ post, c.key s ≠ c.key r) :
     c.find (c.appendAll b0 (pre ++ r :: post)) (c.key r) = none := by
-  rw [lookup_last_wins c L b0 pre post r hpost, hr]; rfl
+  rw [lookup_last_wins c L b0 pre post r hW hpost, hr]; rfl
 
 /-- Writes to other keys never change what a key returns: records of other keys can be erased
 from the history without affecting the lookup. -/
-theorem lookup_ignores_other_keys (c : Codec R M) (L : c.Laws) (b0 : Bytes) (rs : List R)
-    (k : Bytes) (hrs : rs ≠ []) :
+theorem lookup_ignores_other_keys (c : Codec R M) (L : c.Laws W) (b0 : Bytes) (rs : List R)
+    (k : Bytes) (hW : ∀ x ∈ rs, W x) (hrs : rs ≠ []) :
     c.find (c.appendAll b0 rs) k =
       c.findIn k ((c.entriesT b0 ++ rs).filter (fun r => c.key r = k)) := by
   unfold Codec.find
-  rw [L.entries_appendAll_ne_nil b0 rs hrs]
+  rw [L.entries_appendAll_ne_nil b0 rs hW hrs]
   exact c.findIn_filter k _
 
 /-- A key never mentioned in the file or the history is not found. -/
-theorem lookup_never_written (c : Codec R M) (L : c.Laws) (b0 : Bytes) (rs : List R) (k : Bytes)
-    (hrs : rs ≠ []) (h0 : ∀ s ∈ c.entriesT b0, c.key s ≠ k) (h : ∀ s ∈ rs, c.key s ≠ k) :
+theorem lookup_never_written (c : Codec R M) (L : c.Laws W) (b0 : Bytes) (rs : List R) (k : Bytes)
+    (hW : ∀ x ∈ rs, W x) (hrs : rs ≠ []) (h0 : ∀ s ∈ c.entriesT b0, c.key s ≠ k) (h : ∀ s ∈ rs, c.key s ≠ k) :
     c.find (c.appendAll b0 rs) k = none := by
   unfold Codec.find
-  rw [L.entries_appendAll_ne_nil b0 rs hrs]
+  rw [L.entries_appendAll_ne_nil b0 rs hW hrs]
   apply c.findIn_none
   intro s hs
   rcases List.mem_append.mp hs with h1 | h2
   · exact h0 s h1
   · exact h s h2
+
+/-! ### the concrete codec: no hypothesis about the record format left -/
+
+/-- **Last wins, for cacache's own bucket format** (any hash function): the codec laws are proved
+(`codec_laws`), what remains is that the history's records are well-formed (`Rec.WF`: what Rust's
+types guarantee, plus JSON nesting < 127 — see known finding F9 for the excluded point). -/
+theorem lookup_last_wins_cacache (cfg : Cfg) (b0 : Bytes) (pre post : List Rec) (r : Rec)
+    (hW : ∀ x ∈ pre ++ r :: post, x.WF) (hpost : ∀ s ∈ post, s.key ≠ r.key) :
+    (codec cfg).find ((codec cfg).appendAll b0 (pre ++ r :: post)) r.key =
+      (Rec.cls r).apply ((codec cfg).findIn r.key ((codec cfg).entriesT b0 ++ pre)) :=
+  lookup_last_wins (codec cfg) (codec_laws cfg) b0 pre post r hW hpost
+
+theorem lookup_never_written_cacache (cfg : Cfg) (b0 : Bytes) (rs : List Rec) (k : Bytes)
+    (hW : ∀ x ∈ rs, x.WF) (hrs : rs ≠ []) (h0 : ∀ s ∈ (codec cfg).entriesT b0, s.key ≠ k)
+    (h : ∀ s ∈ rs, s.key ≠ k) : (codec cfg).find ((codec cfg).appendAll b0 rs) k = none :=
+  lookup_never_written (codec cfg) (codec_laws cfg) b0 rs k hW hrs h0 h
 
 /-- Non-vacuity: the hypotheses are satisfiable by a concrete non-trivial history. -/
 example : ∃ (pre post : List (Nat × Bytes)), pre ≠ [] ∧ post ≠ [] ∧
